@@ -313,7 +313,7 @@ def limb_rules(r, work, tier, seed):
     return cnt, und, len(types)
 
 
-LIMB_FLOOR = {"quick": 240, "thorough": 2622}
+LIMB_FLOOR = {"quick": 240, "thorough": 2666}
 
 
 def run(tier, seed, work):
